@@ -1,13 +1,35 @@
 (* C02 — failures propagate like sequential exceptions, after all siblings finish.
-   Statements only; proofs in proofs/ProgProofs.v, proofs/MachineC01.v, proofs/MachineC02.v.
+   Statements only; proofs in proofs/ProgProofs.v, proofs/MachineC01.v, proofs/MachineC02.v and (programs with
+   synchronous calls) proofs/MachineC01S.v, proofs/MachineC02S.v.
 
+   PROVED
    (1) pure, every structure: unwrap fails iff some leaf fails, with the error of the FIRST failing
        leaf in written order (a non-future counts as a failing leaf with TypeError);
    (2) machine, tree programs: a task is resumed only when every future it yielded is computed;
    (3) machine, tree programs: what it receives is unwrap of those futures' own outcomes (exception
        ids are instance identities), and an uncaught one becomes the task's and finally value()'s
        outcome - the latter is C01_async_eq_seq_tree, whose [eval] propagates exception ids.
-   Programs with stored handles and synchronous re-entry: correspondence + monitors only. *)
+   (4) machine, [stree] programs = tree programs + synchronous calls of fresh tasks
+       (Let (FTask q) (fun h => Sync h k), fn(args) / fn.asynq(args).value(), nested to any depth; reference
+       [evals]), second half of the file: (2) and (3) again - C02_delivered_only_when_all_siblings_done_stree,
+       C02_delivered_is_unwrap_of_own_outcomes_stree (also _after_history: on any scheduler state satisfying the
+       state invariant SI, e.g. left behind by earlier finished stree computations),
+       C02_uncaught_failure_is_the_outcome_of_value_stree / C02_uncaught_failure_ends_value_stree;
+       and for the synchronous call itself: state properties at the call proper (C02_sync_call_stree), at the
+       delivery (C02_sync_delivered_is_outcome_of_awaited_stree) and at the return
+       (C02_sync_return_continues_caller_stree), and the two-state theorem
+       C02_sync_call_returns_sequential_outcome_stree (+ _expression_): from the call (step n) to the FIRST return
+       of value() into the frames pushed by that call (step m) the caller receives exactly evals of the callee -
+       value or exception - and continues with k (evals q), whose sequential value is the caller's.  Hence an
+       exception raised inside a synchronously called function reaches the caller as that very exception.
+       C02_stree_hypotheses_satisfiable / C02_sync_call_hypotheses_satisfiable: an awaited task with a synchronous
+       call inside, a failing sibling task and a born-failed sibling.
+   Hypotheses of all machine theorems: pointwise service, no_unwind (the runaway guard did not fire), one root
+   computation created from the program.
+   NOT PROVED (correspondence + monitors only): programs with stored handles (a future created by Let and awaited
+   later or twice, LOld leaves, value() on an existing future or batch item), ReadVar / Probe, contexts whose
+   pause/resume raise; that a synchronous call returns at all (termination; "first return" is a hypothesis of the
+   two-state theorem); runs in which the guard fired. *)
 From Asynq Require Import Machine Seq proofs.ProgProofs proofs.MachineC08 proofs.MachineC01 proofs.MachineC02.
 
 Theorem C02_first_failing_future_wins : forall (A : Type) (look : A -> outcome) (s : ystruct A),
@@ -47,3 +69,204 @@ Theorem C02_uncaught_failure_is_the_outcome_of_value : forall P p n o,
   no_unwind P n (start h s1) -> c_mode (run P n (start h s1)) = MDone o -> o = eval p.
 Proof. exact async_eq_seq_tree. Qed.
 Print Assumptions C02_uncaught_failure_is_the_outcome_of_value.
+
+(* ==== tree programs WITH SYNCHRONOUS CALLS ([stree], [evals]: proofs/MachineC01S.v, proofs/MachineC02S.v) ==== *)
+From Asynq Require Import proofs.MachineC01S proofs.MachineC02S.
+
+Theorem C02_delivered_only_when_all_siblings_done_stree : forall P, pointwise P -> forall p, stree p -> forall n t,
+  let h := fst (create [] (FTask p) (st0 P)) in
+  let s1 := snd (create [] (FTask p) (st0 P)) in
+  no_unwind P n (start h s1) -> c_mode (run P n (start h s1)) = MResume t ->
+  exists tk, get t (c_st (run P n (start h s1))) = Some (mkFut None (KTask tk)) /\
+    forall x, In (RFut x) (leaves (tk_last tk)) -> computed x (c_st (run P n (start h s1))) = true.
+Proof. exact resume_guard_stree. Qed.
+Print Assumptions C02_delivered_only_when_all_siblings_done_stree.
+
+Theorem C02_delivered_is_unwrap_of_own_outcomes_stree : forall P, pointwise P -> forall p, stree p -> forall n t,
+  let h := fst (create [] (FTask p) (st0 P)) in
+  let s1 := snd (create [] (FTask p) (st0 P)) in
+  no_unwind P n (start h s1) -> c_mode (run P n (start h s1)) = MResume t ->
+  exists tk k spec, get t (c_st (run P n (start h s1))) = Some (mkFut None (KTask tk)) /\
+    tk_gen tk = Some k /\
+    c_mode (step P (run P n (start h s1))) =
+      MRun t (k (unwrap (look (c_st (run P n (start h s1)))) (tk_last tk))) /\
+    unwrap (look (c_st (run P n (start h s1)))) (tk_last tk) = unwrap (look_spec spec) (tk_last tk) /\
+    spec t = Some (evals (k (unwrap (look_spec spec) (tk_last tk)))).
+Proof. exact delivered_is_unwrap_stree. Qed.
+Print Assumptions C02_delivered_is_unwrap_of_own_outcomes_stree.
+
+(* the same two on a scheduler state left behind by earlier (finished) stree computations *)
+Theorem C02_delivered_only_when_all_siblings_done_stree_after_history : forall P, pointwise P ->
+  forall spec0 s0, SI spec0 (fun _ => False) s0 -> forall p, stree p -> forall n t,
+  let h := fst (create [] (FTask p) s0) in
+  let s1 := snd (create [] (FTask p) s0) in
+  no_unwind P n (start h s1) -> c_mode (run P n (start h s1)) = MResume t ->
+  exists tk, get t (c_st (run P n (start h s1))) = Some (mkFut None (KTask tk)) /\
+    forall x, In (RFut x) (leaves (tk_last tk)) -> computed x (c_st (run P n (start h s1))) = true.
+Proof. exact resume_guard_stree_from. Qed.
+Print Assumptions C02_delivered_only_when_all_siblings_done_stree_after_history.
+
+Theorem C02_delivered_is_unwrap_of_own_outcomes_stree_after_history : forall P, pointwise P ->
+  forall spec0 s0, SI spec0 (fun _ => False) s0 -> forall p, stree p -> forall n t,
+  let h := fst (create [] (FTask p) s0) in
+  let s1 := snd (create [] (FTask p) s0) in
+  no_unwind P n (start h s1) -> c_mode (run P n (start h s1)) = MResume t ->
+  exists tk k spec, get t (c_st (run P n (start h s1))) = Some (mkFut None (KTask tk)) /\
+    tk_gen tk = Some k /\
+    c_mode (step P (run P n (start h s1))) =
+      MRun t (k (unwrap (look (c_st (run P n (start h s1)))) (tk_last tk))) /\
+    unwrap (look (c_st (run P n (start h s1)))) (tk_last tk) = unwrap (look_spec spec) (tk_last tk) /\
+    spec t = Some (evals (k (unwrap (look_spec spec) (tk_last tk)))).
+Proof. exact delivered_is_unwrap_stree_from. Qed.
+Print Assumptions C02_delivered_is_unwrap_of_own_outcomes_stree_after_history.
+
+Theorem C02_uncaught_failure_is_the_outcome_of_value_stree : forall P p n o,
+  pointwise P -> stree p ->
+  let h := fst (create [] (FTask p) (st0 P)) in
+  let s1 := snd (create [] (FTask p) (st0 P)) in
+  no_unwind P n (start h s1) -> c_mode (run P n (start h s1)) = MDone o -> o = evals p.
+Proof. exact async_eq_seq_stree. Qed.
+Print Assumptions C02_uncaught_failure_is_the_outcome_of_value_stree.
+
+Theorem C02_uncaught_failure_ends_value_stree : forall P p n e,
+  pointwise P -> stree p -> evals p = Err e ->
+  let h := fst (create [] (FTask p) (st0 P)) in
+  let s1 := snd (create [] (FTask p) (st0 P)) in
+  no_unwind P n (start h s1) -> forall o, c_mode (run P n (start h s1)) = MDone o -> o = Err e.
+Proof. exact uncaught_failure_stree. Qed.
+Print Assumptions C02_uncaught_failure_ends_value_stree.
+
+(* ---- what a synchronous call delivers ---- *)
+(* the call proper: the callee h is a task younger than the caller t; its specified outcome oh is evals of its
+   program while its entry is still the fresh one, and the caller's specified outcome is evals (k oh) *)
+Theorem C02_sync_call_stree : forall P, pointwise P -> forall p, stree p -> forall n t h k,
+  let h0 := fst (create [] (FTask p) (st0 P)) in
+  let s1 := snd (create [] (FTask p) (st0 P)) in
+  no_unwind P n (start h0 s1) -> c_mode (run P n (start h0 s1)) = MRun t (Sync h k) ->
+  exists spec oh, spec h = Some oh /\ spec t = Some (evals (k oh)) /\ (forall o, stree (k o)) /\
+    (fnum t < fnum h)%Z /\ is_task h (c_st (run P n (start h0 s1))) /\
+    (forall q, get h (c_st (run P n (start h0 s1))) = Some (mkFut None (KTask (fresh_task q))) -> oh = evals q) /\
+    (computed h (c_st (run P n (start h0 s1))) = true -> oh = outcome_of h (c_st (run P n (start h0 s1)))) /\
+    c_mode (step P (run P n (start h0 s1))) = MValue h /\
+    c_frames (step P (run P n (start h0 s1))) = FValue t k :: c_frames (run P n (start h0 s1)).
+Proof. exact sync_call_stree. Qed.
+Print Assumptions C02_sync_call_stree.
+
+(* [MDeliver o] over an [FValue t k] frame is entered only from value() of a computed h over that frame or from the
+   wait loop of a computed h directly above it; o is the outcome stored in h, which is the specified one *)
+Theorem C02_sync_delivered_is_outcome_of_awaited_stree : forall P, pointwise P -> forall p, stree p -> forall n o t k fr',
+  let h0 := fst (create [] (FTask p) (st0 P)) in
+  let s1 := snd (create [] (FTask p) (st0 P)) in
+  no_unwind P n (start h0 s1) ->
+  c_mode (step P (run P n (start h0 s1))) = MDeliver o ->
+  c_frames (step P (run P n (start h0 s1))) = FValue t k :: fr' ->
+  exists spec h, computed h (c_st (run P n (start h0 s1))) = true /\
+    o = outcome_of h (c_st (run P n (start h0 s1))) /\ spec h = Some o /\ (fnum t < fnum h)%Z /\
+    ((c_mode (run P n (start h0 s1)) = MValue h /\ c_frames (run P n (start h0 s1)) = FValue t k :: fr') \/
+     ((c_mode (run P n (start h0 s1)) = MWaitHead \/ c_mode (run P n (start h0 s1)) = MAfterExec) /\
+      c_frames (run P n (start h0 s1)) = FWait h :: FValue t k :: fr')).
+Proof. exact sync_deliver_origin_stree. Qed.
+Print Assumptions C02_sync_delivered_is_outcome_of_awaited_stree.
+
+(* the return: the caller (an uncomputed task) continues with k o, whose sequential value is the caller's *)
+Theorem C02_sync_return_continues_caller_stree : forall P, pointwise P -> forall p, stree p -> forall n o t k fr',
+  let h0 := fst (create [] (FTask p) (st0 P)) in
+  let s1 := snd (create [] (FTask p) (st0 P)) in
+  no_unwind P n (start h0 s1) ->
+  c_mode (run P n (start h0 s1)) = MDeliver o -> c_frames (run P n (start h0 s1)) = FValue t k :: fr' ->
+  exists spec, utask (c_st (run P n (start h0 s1))) t /\ (forall x, stree (k x)) /\
+    spec t = Some (evals (k o)) /\
+    c_mode (step P (run P n (start h0 s1))) = MRun t (k o) /\
+    c_frames (step P (run P n (start h0 s1))) = fr'.
+Proof. exact sync_return_stree. Qed.
+Print Assumptions C02_sync_return_continues_caller_stree.
+
+(* non-vacuity: an awaited task with a synchronous call inside, a failing sibling task (42) and a born-failed
+   sibling (43): the root is resumed at step 40 with all three computed and receives Err 42; the call is entered
+   at step 10/11 and returns at step 30 *)
+Example C02_stree_hypotheses_satisfiable :
+  stree c02s_demo /\
+  let P := mkP [] 1000 false [] in
+  let h := fst (create [] (FTask c02s_demo) (st0 P)) in
+  let s1 := snd (create [] (FTask c02s_demo) (st0 P)) in
+  no_unwind_b P 60 (start h s1) = true /\
+  c_mode (run P 60 (start h s1)) = MDone (Err 42) /\ evals c02s_demo = Err 42 /\
+  c_mode (run P 40 (start h s1)) = MResume [0] /\
+  match get_task [0] (c_st (run P 40 (start h s1))) with
+  | Some tk => tk_last tk = YTuple [YLeaf (RFut [1]); YLeaf (RFut [2]); YLeaf (RFut [3])] /\
+               map (look (c_st (run P 40 (start h s1)))) (leaves (tk_last tk)) =
+                 [Ok (VTuple [VInt 7; VInt 1]); Err 42; Err 43] /\
+               unwrap (look (c_st (run P 40 (start h s1)))) (tk_last tk) = Err 42
+  | None => False
+  end /\
+  c_mode (step P (run P 40 (start h s1))) = MRun [0] (Raise 42) /\
+  (exists k, c_mode (run P 10 (start h s1)) = MRun [1] (Sync [4] k)) /\
+  c_mode (run P 11 (start h s1)) = MValue [4] /\
+  c_mode (run P 29 (start h s1)) = MAfterExec /\
+  (exists k fr', c_frames (run P 29 (start h s1)) = FWait [4] :: FValue [1] k :: fr') /\
+  c_mode (run P 30 (start h s1)) = MDeliver (Ok (VInt 7)) /\
+  (exists k fr', c_frames (run P 30 (start h s1)) = FValue [1] k :: fr') /\
+  c_mode (step P (run P 30 (start h s1))) = MRun [1] (Ret (VTuple [VInt 7; VInt 1])) /\
+  rev (trace (c_st (run P 60 (start h s1)))) =
+    [EvStep [0] 0 (Ok VNone); EvStep [1] 0 (Ok VNone); EvStep [4] 0 (Ok VNone);
+     EvBefore 0 0; EvFlush 0 0 [[5]]; EvItemDone [5] (Ok (VInt 7)); EvAfter 0 0;
+     EvStep [4] 1 (Ok (VInt 7)); EvDone [4] (Ok (VInt 7)); EvGot [1] (Ok (VInt 7));
+     EvDone [1] (Ok (VTuple [VInt 7; VInt 1])); EvStep [2] 0 (Ok VNone); EvDone [2] (Err 42);
+     EvStep [0] 1 (Err 42); EvDone [0] (Err 42)].
+Proof. exact (conj c02s_demo_stree c02s_demo_runs). Qed.
+Print Assumptions C02_stree_hypotheses_satisfiable.
+
+(* ---- a synchronous call from entry to its first return: the caller receives evals of the callee ---- *)
+(* the ghost specification map only grows along a run (the C01 stree invariant step, with that conjunct) *)
+Theorem C02_stree_invariant_step_monotone : forall P, pointwise P -> forall res spec c,
+  is_unwind (c_mode c) = false -> CI res spec c ->
+  exists spec', CI res spec' (step P c) /\ (forall x o, spec x = Some o -> spec' x = Some o).
+Proof. exact s01_step_le. Qed.
+Print Assumptions C02_stree_invariant_step_monotone.
+
+(* from the call proper (step n; h is the fresh task of program q) to the FIRST later step m at which value()
+   returns into the frames pushed by this call *)
+Theorem C02_sync_call_returns_sequential_outcome_stree : forall P, pointwise P -> forall p, stree p ->
+  forall n m t h k q o,
+  let c0 := start (fst (create [] (FTask p) (st0 P))) (snd (create [] (FTask p) (st0 P))) in
+  no_unwind P m c0 -> (n < m)%nat ->
+  c_mode (run P n c0) = MRun t (Sync h k) ->
+  get h (c_st (run P n c0)) = Some (mkFut None (KTask (fresh_task q))) ->
+  c_mode (run P m c0) = MDeliver o -> c_frames (run P m c0) = FValue t k :: c_frames (run P n c0) ->
+  (forall i, (n < i < m)%nat ->
+     ~ (c_frames (run P i c0) = FValue t k :: c_frames (run P n c0) /\ exists o', c_mode (run P i c0) = MDeliver o')) ->
+  o = evals q /\
+  exists spec, spec t = Some (evals (k (evals q))) /\ c_mode (step P (run P m c0)) = MRun t (k (evals q)).
+Proof. exact sync_call_returns_evals_stree. Qed.
+Print Assumptions C02_sync_call_returns_sequential_outcome_stree.
+
+(* the same from the call expression fn(args) = Let (FTask q) (fun h => Sync h k) at step n *)
+Theorem C02_sync_call_expression_returns_sequential_outcome_stree : forall P, pointwise P -> forall p, stree p ->
+  forall n m t k q o,
+  let c0 := start (fst (create [] (FTask p) (st0 P))) (snd (create [] (FTask p) (st0 P))) in
+  no_unwind P m c0 -> (n + 1 < m)%nat ->
+  c_mode (run P n c0) = MRun t (Let (FTask q) (fun h => Sync h k)) ->
+  c_mode (run P m c0) = MDeliver o -> c_frames (run P m c0) = FValue t k :: c_frames (run P n c0) ->
+  (forall i, (n + 1 < i < m)%nat ->
+     ~ (c_frames (run P i c0) = FValue t k :: c_frames (run P n c0) /\ exists o', c_mode (run P i c0) = MDeliver o')) ->
+  o = evals q /\
+  exists spec, spec t = Some (evals (k (evals q))) /\ c_mode (step P (run P m c0)) = MRun t (k (evals q)).
+Proof. exact sync_call_expr_returns_evals_stree. Qed.
+Print Assumptions C02_sync_call_expression_returns_sequential_outcome_stree.
+
+(* non-vacuity: in the demo run the call of callee [4] by caller [1] is at its call proper at step 10 and first
+   returns at step 30, with Ok 7 = evals callee *)
+Example C02_sync_call_hypotheses_satisfiable :
+  let P := mkP [] 1000 false [] in
+  let c0 := start (fst (create [] (FTask c02s_demo) (st0 P))) (snd (create [] (FTask c02s_demo) (st0 P))) in
+  let k := ret_or_raise (fun v => VTuple [v; VInt 1]) in
+  no_unwind P 30 c0 /\
+  c_mode (run P 10 c0) = MRun [1] (Sync [4] k) /\
+  get [4] (c_st (run P 10 c0)) = Some (mkFut None (KTask (fresh_task c02s_callee))) /\
+  c_mode (run P 30 c0) = MDeliver (Ok (VInt 7)) /\
+  c_frames (run P 30 c0) = FValue [1] k :: c_frames (run P 10 c0) /\
+  (forall i, (10 < i < 30)%nat ->
+     ~ (c_frames (run P i c0) = FValue [1] k :: c_frames (run P 10 c0) /\ exists o', c_mode (run P i c0) = MDeliver o')) /\
+  evals c02s_callee = Ok (VInt 7).
+Proof. exact c02s_demo_call_returns. Qed.
+Print Assumptions C02_sync_call_hypotheses_satisfiable.
